@@ -375,6 +375,23 @@ func c09Kauri(c *Ctx) {
 		si := d.Key(complitField(e.Alloc, "SyncInfo"))
 		okT := hasCmp(facts, "<=", contains(kQuorumSize), func(k string) bool { return strings.HasPrefix(k, kPartLen) && strings.Contains(k, "Base).Combine(") })
 		okQ := strings.HasPrefix(si, "hs.NewSyncInfoWith[hs.QuorumCert](hs.NewQuorumCert(p0->"+kKauri+"aggContrib, p0->"+kKauri+"currentView, p0->"+kKauri+"blockHash)")
+		if !okQ {
+			// the QC may be built from the local that was just stored into aggContrib
+			eachInstr(d.In, func(x ssa.Instruction) {
+				call, isCall := x.(*ssa.Call)
+				if !isCall || call.Call.StaticCallee() == nil || call.Call.StaticCallee().Name() != "NewQuorumCert" || len(call.Call.Args) != 3 {
+					return
+				}
+				eachInstr(d.In, func(y ssa.Instruction) {
+					if st, isSt := y.(*ssa.Store); isSt && isAggStore(y) && st.Val == call.Call.Args[0] && precedes(y, x) {
+						rest := d.Key(call.Call.Args[1]) + ", " + d.Key(call.Call.Args[2])
+						if rest == "p0->"+kKauri+"currentView, p0->"+kKauri+"blockHash" && strings.Contains(si, d.Key(call)) {
+							okQ = true
+						}
+					}
+				})
+			})
+		}
 		c.Check(okT, "C09.7/threshold", "mergeContribution: emit at quorum", p.InstrPos(e.Instr),
 			"the QC is emitted only under QuorumSize() <= merged.Participants().Len()", "emission not gated by the quorum comparison; facts: "+join(facts.Sorted()))
 		c.Check(okQ, "C09.7/qc", "mergeContribution: QC = (aggContrib, currentView, blockHash)", p.InstrPos(e.Instr),
